@@ -254,6 +254,21 @@ fn multi_fault_documents() -> Vec<(&'static str, String)> {
         ("two-duplicate-exports", "package t:doc;\nlet x = new f:c { ... };\nexport x.run as r;\nexport x.run as r;\nexport x.run as s;\nexport x.run as s;\n".to_string()),
         ("two-undefined-names", "package t:doc;\nlet x = new f:two { k: nope, l: nada };\n".to_string()),
         ("record-two-duplicate-fields", "package t:doc;\nrecord r { a: u32, b: u32, a: u32, b: u32 }\n".to_string()),
+        // merge conflicts: which instantiation / import the diagnostic blames must not depend on
+        // hash order (several instantiations implicitly importing differently named versions of
+        // one track, an explicit import that conflicts with all of them, conflicts on two tracks)
+        (
+            "merge-conflict-explicit-import-vs-three-implicit-versions",
+            "package t:doc;\nimport x as \"a:b/i@0.2.5\": interface { f: func(x: u32); };\nlet a = new t:v020 { ... };\nlet b = new t:v021 { ... };\nlet c = new t:v0210 { ... };\n".to_string(),
+        ),
+        (
+            "merge-conflict-among-three-implicit-versions",
+            "package t:doc;\nlet a = new t:v020 { ... };\nlet b = new t:v021 { ... };\nlet c = new t:v022bad { ... };\nlet d = new t:v0210 { ... };\n".to_string(),
+        ),
+        (
+            "merge-conflicts-on-two-tracks",
+            "package t:doc;\nimport x as \"a:b/i@0.2.5\": interface { f: func(x: u32); };\nimport y as \"a:b/i@1.0.5\": interface { f: func(x: u32); };\nlet a = new t:v100 { ... };\nlet b = new t:v120 { ... };\nlet c = new t:v020 { ... };\nlet d = new t:v021 { ... };\n".to_string(),
+        ),
         ("implicit-imports-many", "package t:doc;\nlet x = new f:two { ... };\nlet y = new f:c { ... };\nlet z = new f:d { ... };\nexport x.run as r1;\nexport y.run as r2;\nexport z.run as r3;\n".to_string()),
     ]
 }
@@ -302,6 +317,10 @@ pub fn worker(args: &[String]) {
         let f0 = Ty::func0();
         let two = PkgSpec::new("f:two", None, &[("k", f0.clone()), ("l", f0.clone()), ("m", Ty::inst(&[("x", f0.clone())]))], &[("run", f0.clone())]);
         lib.insert(("f:two".into(), None), two.to_bytes());
+        // the versioned-import library (one interface required at many versions)
+        for p in mc_graph::c03::library() {
+            lib.insert((p.name.clone(), None), p.to_bytes());
+        }
     }
     for (name, text) in multi_fault_documents() {
         let id = format!("doc/multi-fault/{name}");
